@@ -148,6 +148,57 @@ mod verif_c03 {
     #[kani::unwind(17)]
     fn c03_flags_real_2() { run::<2>(true) }
 
+    /// C11 L-flags: winner flags and winner_len are equivariant under permuting the players (symbolic transposition of two seats)
+    fn perm<const N: usize>() {
+        let board_c: [u8; 5] = kani::any();
+        let hole_c: [[u8; 2]; N] = kani::any();
+        let mut all = [0u8; 16];
+        let mut n = 0;
+        for i in 0..5 {
+            all[n] = board_c[i];
+            n += 1;
+        }
+        for p in 0..N {
+            all[n] = hole_c[p][0];
+            all[n + 1] = hole_c[p][1];
+            n += 2;
+        }
+        for i in 0..n {
+            kani::assume(all[i] < 52);
+            for j in 0..i {
+                kani::assume(all[i] != all[j]);
+            }
+        }
+        let board = [card_of(board_c[0]), card_of(board_c[1]), card_of(board_c[2]), card_of(board_c[3]), card_of(board_c[4])];
+        let (x, y): (usize, usize) = (kani::any(), kani::any());
+        kani::assume(x < N && y < N && x != y);
+        let mut a = Vec::with_capacity(N);
+        let mut b = Vec::with_capacity(N);
+        for p in 0..N {
+            let q = if p == x { y } else if p == y { x } else { p };
+            a.push(CardPair::new(card_of(hole_c[p][0]), card_of(hole_c[p][1])));
+            b.push(CardPair::new(card_of(hole_c[q][0]), card_of(hole_c[q][1])));
+        }
+        let sa = Showdown::new(a, board, 1.0).unwrap();
+        let sb = Showdown::new(b, board, 1.0).unwrap();
+        assert!(sa.winner_len() == sb.winner_len());
+        assert!(sa.winner_len() >= 1);
+        for p in 0..N {
+            let q = if p == x { y } else if p == y { x } else { p };
+            assert!(sa.players()[q].is_winner() == sb.players()[p].is_winner());
+            assert!(sa.players()[q].hand() == sb.players()[p].hand());
+        }
+        kani::cover!(sa.winner_len() == 2, "a two-way tie reached");
+    }
+    #[kani::proof]
+    #[kani::unwind(17)]
+    #[kani::stub(<MadeHand as std::convert::From<[Card; 7]>>::from, uf_made_hand)]
+    fn c11_flags_player_perm_2() { perm::<2>() }
+    #[kani::proof]
+    #[kani::unwind(17)]
+    #[kani::stub(<MadeHand as std::convert::From<[Card; 7]>>::from, uf_made_hand)]
+    fn c11_flags_player_perm_3() { perm::<3>() }
+
     /// a hole card equal to a board card (symbolic player, symbolic position) => None
     #[kani::proof]
     #[kani::unwind(17)]
